@@ -126,6 +126,9 @@ def canon_outcome(outcome):
     if outcome[0] == 'ok':
         return 'ok:' + canon(outcome[1])
 
+    if outcome[0] == 'hang':
+        return '["hang"]'
+
     return json.dumps(list(outcome[:3]))
 
 
